@@ -76,6 +76,7 @@ type c24Case struct {
 	Rot     int    `json:"rot"`
 	SegSize int64  `json:"seg_size"`
 	Writer  string `json:"writer,omitempty"`
+	Card    int    `json:"card,omitempty"` // >0: instead of Subset, Card series {__name__=m, v=v00..} (one label of that cardinality)
 	// damage part
 	Block   string `json:"block,omitempty"`
 	File    string `json:"file,omitempty"`
@@ -98,6 +99,22 @@ func c24Build(subset []int, rot int) c24Model {
 			s.Chunks = append(s.Chunks, meta)
 			s.Model = append(s.Model, model...)
 		}
+		m.Series = append(m.Series, s)
+	}
+	sort.Slice(m.Series, func(i, j int) bool { return labels.Compare(m.Series[i].Labels, m.Series[j].Labels) < 0 })
+	return m
+}
+
+// c24CardSizes: cardinalities around the index reader's 1-in-32 sampling of the postings offset table.
+var c24CardSizes = []int{31, 32, 33, 34, 63, 64, 65, 97}
+
+func c24BuildCard(n int) c24Model {
+	var m c24Model
+	for i := 0; i < n; i++ {
+		s := c07SeriesIn{Labels: labels.FromStrings("__name__", "m", "v", fmt.Sprintf("v%02d", i))}
+		meta, model := c07MakeChunk(c07Chunk{"f", []int64{1, 2}}, int64(i))
+		s.Chunks = append(s.Chunks, meta)
+		s.Model = append(s.Model, model...)
 		m.Series = append(m.Series, s)
 	}
 	sort.Slice(m.Series, func(i, j int) bool { return labels.Compare(m.Series[i].Labels, m.Series[j].Labels) < 0 })
@@ -347,6 +364,9 @@ func (x *c24Run) outcome(s string) {
 // roundTrip runs one (subset, rot, segment size) through the writers.
 func (x *c24Run) roundTrip(c c24Case, withCreateBlock bool) {
 	m := c24Build(c.Subset, c.Rot)
+	if c.Card > 0 {
+		m = c24BuildCard(c.Card)
+	}
 	tmp, err := os.MkdirTemp("", "c24r")
 	if err != nil {
 		x.r.T.Errorf("c24: %v", err)
@@ -444,7 +464,7 @@ func (x *c24Run) roundTrip(c c24Case, withCreateBlock bool) {
 		}
 	}
 	x.outcome(fmt.Sprintf("ok series=%d segments=%d", len(m.Series), nseg))
-	x.r.Distinct("distinct_nontrivial", fmt.Sprint("R", c.Subset, c.Rot, c.SegSize))
+	x.r.Distinct("distinct_nontrivial", fmt.Sprint("R", c.Subset, c.Rot, c.SegSize, c.Card))
 }
 
 // ---- damage sweep -------------------------------------------------------------------------------
@@ -875,6 +895,9 @@ func TestVerifC24(t *testing.T) {
 		}
 		return true
 	})
+	for _, n := range c24CardSizes { // one label with 31..97 values (both tiers)
+		cases = append(cases, c24Case{Card: n})
+	}
 	var doneR atomic.Int64
 	r.ParallelN(int64(len(cases)), func(i int64) {
 		c := cases[i]
